@@ -121,6 +121,69 @@ def grep_forbidden():
 
 # --------------------------------------------------------------------------- suites and projections
 
+def hx(s):
+    return s.encode().hex()
+
+
+H_VARY, H_ACAO, H_ACAC, H_ACEH = hx('Vary'), hx('Access-Control-Allow-Origin'), hx('Access-Control-Allow-Credentials'), hx('Access-Control-Expose-Headers')
+H_ACAM, H_ACAH, H_ACAPN, H_ACMA = hx('Access-Control-Allow-Methods'), hx('Access-Control-Allow-Headers'), hx('Access-Control-Allow-Private-Network'), hx('Access-Control-Max-Age')
+H_ORIGIN, H_ACRM, H_ACRH = hx('Origin'), hx('Access-Control-Request-Method'), hx('Access-Control-Request-Headers')
+CORS_RESP = [H_ACAO, H_ACAC, H_ACAM, H_ACAH, H_ACAPN, H_ACMA, H_ACEH]
+
+
+def dec_map(s):
+    """'k=v,v;k=~' -> dict k -> list of hex values ('-' is the empty string)"""
+    out = {}
+    if s in ('~', ''):
+        return out
+    for e in s.split(';'):
+        k, _, v = e.partition('=')
+        out[k] = [] if v == '~' else v.split(',')
+    return out
+
+
+def parse_resp(r):
+    f = r.split('\t')
+    if len(f) < 4:
+        return None
+    return dict(status=f[0], next=f[1], hdrs=dec_map(f[2]), flags=f[3])
+
+
+def serve_case(case):
+    """fields of a serve / h.serve case line: (cfg, debug, method, req hdrs, pre) — cfg/debug None for h.serve"""
+    f = case.split('\t')
+    if f[0] == 'serve':
+        return dict(cfg=f[1], debug=f[3], method=f[4], req=dec_map(f[5]), pre=dec_map(f[6]))
+    return dict(cfg=None, debug=None, method=f[2], req=dec_map(f[3]), pre=dec_map(f[4]))
+
+
+def is_preflight(sc):
+    return sc['method'] == hx('OPTIONS') and len(sc['req'].get(H_ORIGIN, [])) > 0 and len(sc['req'].get(H_ACRM, [])) > 0
+
+
+def view_c11(sc, r):
+    if r is None:
+        return 'unparsable'
+    if r['next'] == '0':
+        return 'answered status=%s flags=%s' % ('yes' if r['status'] != '-' else 'no', r['flags'])
+    others = sorted((k, tuple(v)) for k, v in r['hdrs'].items() if k not in (H_VARY, H_ACAO, H_ACAC, H_ACEH))
+    pv = sc['pre'].get(H_VARY, [])
+    vary_ok = r['hdrs'].get(H_VARY, [])[:len(pv)] == pv
+    return 'passed status=%s flags=%s others=%s vary_prefix=%s' % (r['status'], r['flags'], others, vary_ok)
+
+
+def view_cors(r):
+    if r is None:
+        return 'unparsable'
+    return '%s %s' % ('S' if r['status'] != '-' else '-', sorted((k, tuple(v)) for k, v in r['hdrs'].items() if k in CORS_RESP))
+
+
+def view_vary(r):
+    if r is None:
+        return 'unparsable'
+    return str(r['hdrs'].get(H_VARY))
+
+
 def split_resp(line):
     """serve / h.serve output: impl = resp || bits ; model = strict || dec || bits."""
     return [p.strip('\t') for p in line.split('\t||\t')]
@@ -145,6 +208,19 @@ class Cmp:
         if op in ('serve', 'h.serve') and '\t||\t' in impl and '\t||\t' in model:
             i, m = split_resp(impl), split_resp(model)
             if len(i) == 2 and len(m) == 3:
+                if mode in ('c11', 'c16', 'c03', 'vary'):
+                    sc = serve_case(case)
+                    ri, rs, rd = parse_resp(i[0]), parse_resp(m[0]), parse_resp(m[1])
+                    if mode == 'c11':
+                        return view_c11(sc, ri), view_c11(sc, rd)
+                    if mode == 'c03':
+                        return view_cors(ri), view_cors(rs)
+                    if mode == 'vary':
+                        return view_vary(ri), view_vary(rd)
+                    if mode == 'c16':
+                        if sc['debug'] == '0' and ((ri and ri['next'] == '0') or (rd and rd['next'] == '0')):
+                            return i[0], m[1]
+                        return '', ''
                 if mode == 'strict':
                     return i[0], m[0]
                 if mode == 'dec':
@@ -190,6 +266,8 @@ def nontrivial(case, impl):
         return 'J(' in f[1] and f[2] != '0'
     if op.startswith('h.'):
         return op in ('h.reconf', 'h.debug', 'h.config')
+    if op == 'pair':
+        return True
     return True
 
 
@@ -201,6 +279,10 @@ RULES = {
     'validate': 'random Config values from labelled atoms (55% aimed at acceptance) through NewMiddleware; error tree shape and fields or Config(); distinct by case hash',
     'serve': 'random accepted configurations x requests derived from them (allowed/near-miss origins, ACRM/ACRH/ACRPN presence x emptiness x multiplicity, pre-set response headers), both debug modes; non-trivial = the middleware wrote a status or an Access-Control-* header; distinct by case hash',
     'errors': 'random errors.Join trees of depth <= 5 x every break position; non-trivial = at least one join and an early break; distinct by case hash',
+    'pairs10': 'accepted configurations x requests; a second request keeps the method and every header named in the Vary values added to the first response and changes all others; the two Go responses are compared with each other (C10 is 2-safety); distinct by case hash',
+    'pairs09': 'accepted configurations x requests answered with debug on and off; non-preflights must get identical responses, preflights must not reach the handler; distinct by case hash',
+    'twins': 'accepted configurations x a twin obtained by permuting/duplicating list entries, re-casing header names, re-spelling normalisable methods, adding safelisted methods/response headers; both middlewares answer derived requests and the Go responses are compared; distinct by case hash',
+    'roundtrip': 'accepted configurations: middlewares from c, from Config(), zero+Reconfigure(&c), Reconfigure(Config()); five derived requests in both debug modes compared pairwise; Config() stable after one round trip; distinct by case hash',
     'history': 'random operation sequences (SetDebug, Reconfigure nil/valid/invalid/Config()) over 1-3 middlewares with probes after every step; non-trivial = state-changing or observing operation; distinct by case hash',
 }
 
@@ -249,23 +331,23 @@ PROPS = {
     'C01': dict(suites=[('tree', 1500, 60000), ('lex', 1500, 40000), ('serve', 3000, 60000)],
                 cmps=[C('tree', 'treebits', 'spec'), C('lex', 'full', 'tie', only=('parse',)), C('serve', 'bitsPA', 'spec')]),
     'C02': dict(suites=[('serve', 4000, 120000)], cmps=[C('serve', 'full', 'tie')]),
-    'C03': dict(suites=[('serve', 4000, 120000)], cmps=[C('serve', 'strict', 'tie')]),
+    'C03': dict(suites=[('serve', 6000, 150000)], cmps=[C('serve', 'c03', 'tie')]),
     'C04': dict(suites=[('validate', 3000, 100000), ('names', 300, 20000), ('lex', 1000, 20000)],
                 cmps=[C('validate', 'accept', 'tie'), C('names', 'full', 'tie'), C('lex', 'full', 'tie', only=('pattern',))]),
     'C05': dict(suites=[('validate', 4000, 150000)], cmps=[C('validate', 'full', 'tie')]),
-    'C06': dict(suites=[('history', 150, 4000), ('validate', 2000, 50000)],
-                cmps=[C('history', 'dec', 'tie'), C('validate', 'full', 'tie')]),
+    'C06': dict(suites=[('roundtrip', 1500, 60000), ('history', 150, 4000), ('validate', 2000, 50000)],
+                cmps=[C('roundtrip', 'full', 'spec'), C('history', 'dec', 'tie'), C('validate', 'full', 'tie')]),
     'C07': dict(suites=[('history', 100, 2000)], cmps=[C('history', 'dec', 'tie')]),
     'C08': dict(suites=[('history', 150, 4000)], cmps=[C('history', 'dec', 'tie')]),
-    'C09': dict(suites=[('history', 150, 4000), ('serve', 2000, 50000)], cmps=[C('history', 'dec', 'tie'), C('serve', 'dec', 'tie')]),
-    'C10': dict(suites=[('serve', 4000, 120000)], cmps=[C('serve', 'dec', 'tie')]),
-    'C11': dict(suites=[('serve', 4000, 120000)], cmps=[C('serve', 'dec', 'tie')]),
+    'C09': dict(suites=[('history', 200, 5000), ('pairs09', 3000, 100000)], cmps=[C('history', 'dec', 'tie'), C('pairs09', 'full', 'spec')]),
+    'C10': dict(suites=[('serve', 5000, 120000), ('pairs10', 5000, 150000)], cmps=[C('serve', 'vary', 'tie'), C('pairs10', 'full', 'spec')]),
+    'C11': dict(suites=[('serve', 6000, 150000)], cmps=[C('serve', 'c11', 'spec')]),
     'C12': dict(suites=[('history', 150, 4000, ('-adversarial',)), ('serve', 2000, 50000, ('-adversarial',))],
                 cmps=[C('history', 'dec', 'tie'), C('serve', 'dec', 'tie')]),
     'C13': dict(suites=[('lex', 4000, 150000)], cmps=[C('lex', 'full', 'tie', only=('pattern',)), C('lex', 'full', 'tie', only=('parse',))]),
     'C14': dict(suites=[('acrh', 3000, 150000), ('serve', 2000, 50000)], cmps=[C('acrh', 'full', 'spec'), C('serve', 'bitsH', 'spec')]),
-    'C15': dict(suites=[('validate', 2000, 50000), ('serve', 2000, 50000)], cmps=[C('validate', 'full', 'tie'), C('serve', 'dec', 'tie')]),
-    'C16': dict(suites=[('serve', 4000, 120000)], cmps=[C('serve', 'dec', 'tie')]),
+    'C15': dict(suites=[('twins', 4000, 150000), ('validate', 2000, 50000)], cmps=[C('twins', 'full', 'spec'), C('validate', 'full', 'tie')]),
+    'C16': dict(suites=[('serve', 8000, 200000)], cmps=[C('serve', 'c16', 'tie')]),
     'C17': dict(suites=[('lex', 1000, 30000), ('tree', 500, 20000), ('acrh', 1000, 30000), ('validate', 1500, 50000),
                         ('serve', 2000, 60000), ('errors', 50, 1000), ('history', 50, 1000)],
                 cmps=[C(s, 'panic', 'spec') for s in ('lex', 'tree', 'acrh', 'validate', 'serve', 'errors', 'history')]),
